@@ -63,7 +63,7 @@ func specUploader(u *uploader) bool {
 
 //@ contract Run
 //@   recovers-first
-//@   modifies heap, $fsops, $lockHeld, $markerAbsent, $reportExists, $contributed, $minsize, $nprog, $spanName, $spanOK, $spanExpiry, $collected
+//@   modifies heap, $fsops, $lockHeld, $markerAbsent, $reportExists, $contributed, $minsize, $nprog, $spanName, $spanOK, $spanExpiry, $collected, $dateOK, $age, $tooOld
 
 //@ contract newUploader
 //@   ensures result1 == nil ==> uploaderOK(result0) && fresh(result0)
@@ -89,7 +89,7 @@ func specUploader(u *uploader) bool {
 //@   ensures uploaderOK(u)
 //@   ensures $mode == "off" ==> $fsops == old($fsops)
 //@   loop 1: invariant uploaderOK(u) && (len(ready) > 0 ==> $mode == "on") && ($mode == "off" ==> $fsops == old($fsops))
-//@   modifies u.cache.m, entries(u.cache.m), maps(string, int64), $fsops, $reportExists, $lockHeld, $markerAbsent, $contributed, $minsize, $nprog, $spanName, $spanOK, $spanExpiry, $collected
+//@   modifies u.cache.m, entries(u.cache.m), maps(string, int64), $fsops, $reportExists, $lockHeld, $markerAbsent, $contributed, $minsize, $nprog, $spanName, $spanOK, $spanExpiry, $collected, $dateOK, $age, $tooOld
 
 // findWork only reads: nothing is created, changed or removed (it may create
 // the upload directory itself). A report name is put on the ready list only in
@@ -136,7 +136,7 @@ func specUploader(u *uploader) bool {
 //@   at loop 1 end: assert in(expiry, earliest) && !earliest[expiry].After(begin)
 //@   at call createReport#1: assert arg1 == earliest[expiry]
 //@   loop 2: invariant uploaderOK(u) && todo != nil && (len(todo.readyfiles) > 0 ==> $mode == "on") && $mode != "off"
-//@   modifies todo.readyfiles, u.cache.m, entries(u.cache.m), maps(string, int64), $fsops, $reportExists, $contributed, $minsize, $nprog
+//@   modifies todo.readyfiles, u.cache.m, entries(u.cache.m), maps(string, int64), $fsops, $reportExists, $contributed, $minsize, $nprog, $dateOK, $age, $tooOld
 
 //@ contract latestReport
 //@   loop 1: invariant latest == "" || strings.HasSuffix(latest, ".json")
@@ -157,10 +157,22 @@ func specUploader(u *uploader) bool {
 //@   requires $mode != "off"
 //@   modifies $fsops
 
+// tooOld: the date is parsed as a day (DateOnly); a date that does not parse is
+// not too old; otherwise the report is too old exactly if the run started more
+// than distantPast (21 days) after that day.
+//@ ghost dateOK bool
+//@ ghost tooOld bool
+//@ ghost age int
 //@ contract (*uploader).tooOld
 //@   requires uploaderOK(u)
 //@   ensures $fsops == old($fsops)
-//@   modifies nothing
+//@   at call Parse#1: assert arg0 == "2006-01-02" && arg1 == date
+//@   at call Parse#1: after ghost $dateOK = result1 == nil
+//@   at call Sub#1: assert same(arg0, uploadStartTime) && same(arg1, t)
+//@   at call Sub#1: after ghost $age = int(result)
+//@   ensures !$dateOK ==> !result
+//@   ensures $dateOK ==> (result <==> $age > int(distantPast))
+//@   modifies $dateOK, $age
 
 //@ contract (*uploader).counterDateSpan
 //@   requires uploaderOK(u)
@@ -241,6 +253,12 @@ func specUploader(u *uploader) bool {
 //@   at call deleteFiles#2: assert $reportExists && issub(arg1, countFiles, 0, len(countFiles))
 //@   at call deleteFiles#3: assert $reportExists && issub(arg1, countFiles, 0, len(countFiles))
 //@   at call exclusiveWrite#1: assert uploadOK
+// C02, the gates of the uploadable copy: it is written only in mode on, for a week
+// that is not too old, whose earliest data begins after the opt-in date (if one is
+// recorded), and whose X passes the sample rate (if one is configured).
+//@   at call tooOld#1: assert arg1 == expiryDate && same(arg2, u.startTime)
+//@   at call tooOld#1: after ghost $tooOld = result
+//@   at call exclusiveWrite#1: assert $mode == "on" && !$tooOld && ($asof.IsZero() || $asof.Before(start)) && !(report.X > u.config.SampleRate && u.config.SampleRate > 0)
 //@   loop 1: invariant uploaderOK(u) && report != nil && !$reportExists && $fsops == old($fsops)
 //@   loop 1: invariant forall i int :: 0 <= i && i < len(report.Programs) ==> specProgram(report.Programs[i])
 //@   loop 2: invariant uploaderOK(u) && report != nil && prog != nil && prog.Counters != nil && prog.Stacks != nil && !$reportExists && x != nil
@@ -283,12 +301,16 @@ func specUploader(u *uploader) bool {
 //@   at loop 3 end: assert len(upload.Programs) == $nprog + ite(approvedBuild(cfg, p), 1, 0)
 //@   at call MarshalIndent#2: assert same(upload.X, report.X) && upload.Week == report.Week
 //@   at call MarshalIndent#2: assert approvedReport(cfg, upload)
-//@   modifies u.cache.m, entries(u.cache.m), maps(string, int64), $fsops, $reportExists, $contributed, $minsize, $nprog
+//@   modifies u.cache.m, entries(u.cache.m), maps(string, int64), $fsops, $reportExists, $contributed, $minsize, $nprog, $dateOK, $age, $tooOld
 
 // uploadReport: a report dated in the future is not sent.
 //@ contract (*uploader).uploadReport
 //@   requires uploaderOK(u)
 //@   requires $mode == "on"
+//@   at call Format#1: assert same(arg0, u.startTime) && arg1 == "2006-01-02"
+//@   at call FindStringSubmatch#1: assert arg1 == fname
+//@   at call ReadFile#1: assert arg0 == fname && (match == nil || len(match) < 2 || !(match[1] > today))
+//@   at call uploadReportContents#1: assert arg1 == fname && issub(arg2, buf, 0, len(buf)) && (match == nil || len(match) < 2 || !(match[1] > today))
 //@   modifies $fsops, $lockHeld, $markerAbsent, $minsize
 
 // uploadReportContents: lock before POST, marker re-checked under the lock,
